@@ -146,6 +146,8 @@ var c04Funcs = []string{
 	"func vf(..) {..}",
 	"func vg(a, ..) {println(..); len(..)}",
 	"func rebind(x) {r = sq(x); sq = y => y * 2; r}",
+	"func unbind(x) {r = sq(x); sq = 3; r}",
+	"func shot(n) {image.png(n)}",
 	"func nm1() {println(self); 1}",
 	"func nm2() {println(self); 1}",
 	"func counter(s) {c = s; [() => {c = c + 1; c}]}",
@@ -177,7 +179,7 @@ func (p c04) session(c *fw.Ctx) []string {
 	}
 	n := 10 + r.IntN(40)
 	for k := 0; k < n; k++ {
-		switch r.IntN(53) {
+		switch r.IntN(55) {
 		case 0:
 			in = append(in, "p1("+small()+", "+small()+")")
 		case 1:
@@ -274,6 +276,11 @@ func (p c04) session(c *fw.Ctx) []string {
 		case 41:
 			k := small()
 			in = append(in, "ap2("+k+")", "for sq = [x => x * 2, x => x * 3] {println(ap2("+k+"))}", "ap2("+k+")", "for sq = 3 {}", "ap2("+k+")", "sq = x => x * x")
+		case 50:
+			k := small()
+			in = append(in, "ap2("+k+")", "unbind("+k+")", "catch(ap2("+k+")).err", "sq = x => x * x", "ap2("+k+")")
+		case 51:
+			in = append(in, "image.new(\"ci\", 2, 2); b1 = shot(\"ci\"); image.set(\"ci\", 0, 0, [255, 0, 0]); b2 = shot(\"ci\"); [b1 == b2, b2 == image.png(\"ci\")]")
 		case 42:
 			in = append(in, "rebind(5)", "rebind(5)", "sq = x => x * x")
 		case 43:
